@@ -1411,6 +1411,12 @@ class Interp(object):
                 self.inplace_add(cur, v, -1)
                 if isinstance(v, Vec):
                     cur.taint |= v.taint
+            elif isinstance(s.op, (ast.Mult, ast.Div)) and isinstance(
+                    v, Vec) and self.hooks is not None and isinstance(
+                        self.hooks.on_binop(self, type(s.op), cur, v), Vec):
+                # a model with its own pointwise product (e.g. the 1-d line)
+                cur.val = dict(self.hooks.on_binop(self, type(s.op), cur,
+                                                   v).val)
             elif isinstance(s.op, ast.Mult):
                 if is_scalar(v):
                     if self.scalar_is_zero(to_rat(v)):
